@@ -508,6 +508,18 @@ func checkOrder(c *lib.Ctx, a, b *sval) {
 		failc(c, orderClass(a, b), pcase{Kind: "pair", A: a.name, B: b.name},
 			"byte order of Pack(%s) = % x and Pack(%s) = % x is %d, value order is %d", a.name, a.p, b.name, b.p, got, want)
 	}
+	// "sort like values": the language's own comparison of the two values must
+	// give the same order as the reference (and therefore as the packed bytes)
+	if a.m.class == clNum && b.m.class == clNum {
+		av, aok := a.v.(core.Value)
+		bv, bok := b.v.(core.Value)
+		if aok && bok {
+			if cmp := sgn(av.Compare(bv)); cmp != want {
+				failc(c, orderClass(a, b), pcase{Kind: "pair", A: a.name, B: b.name},
+					"Compare(%s, %s) = %d but the value order (and the order of the packed bytes) is %d", a.name, b.name, cmp, want)
+			}
+		}
+	}
 }
 
 // ---------------------------------------------------------------- alphabets
